@@ -68,11 +68,13 @@ prop("C02", NEC + "Clauses: token-range to text-range conversions unwrap first()
      "kind of a looked-up entry (LOOKUP-NOPANIC); locations are produced only for user declarations (ENTRY-GUARD: "
      "predefined entries have the empty range); the process is terminated only at the three sanctioned places; "
      "ranges handed to String::replace_range are computed against the very text they are applied to (TEXT-SYNC batch clauses: a stale "
-     "range is out of bounds or off a character boundary, and replace_range panics).",
+     "range is out of bounds or off a character boundary, and replace_range panics); the nesting depth of the tree, which every "
+     "recursive walk of the front end and of the handlers needs stack for, is bounded where the tree is built (RECURSION-BOUND; open known findings).",
      [{"rule": "EMPTY-RANGE-GUARD", "floor": 2}, {"rule": "LOOKUP-NOPANIC", "floor": 14},
       {"rule": "ENTRY-GUARD", "floor": 6}, {"rule": "WHO-MAY", "filter": tag("exit"), "floor": 1},
       {"rule": "TOKEN-RANGE-SOURCE", "floor": 11}, {"rule": "INDEX-ELEM", "floor": 30},
-      {"rule": "BUILTIN-SET", "floor": 3}, {"rule": "TEXT-SYNC", "filter": tag("batch", "clamp"), "floor": 6}])
+      {"rule": "BUILTIN-SET", "floor": 3}, {"rule": "TEXT-SYNC", "filter": tag("batch", "clamp"), "floor": 6},
+      {"rule": "RECURSION-BOUND", "floor": 4}])
 
 prop("C03", NEC + "Clauses: each of the 27 build/semantic message kinds has an emitting site under table::* and its own "
      "text (VARIANTS); every error is attached in the reference frame of the node that owns it and is shifted exactly "
@@ -194,7 +196,7 @@ prop("C15", NEC + "Clauses: legend order = enum discriminants (T6); token positi
      "(LEN-UNITS); the delta base advances exactly when a token is emitted (SEMTOK-PAIRING); identifiers inside a procedure are "
      "classified through the local-then-global LookupTable (SCOPE-ORDER)." + PARSER_REF,
      [{"rule": "TABLES-SEMTOK", "floor": 24}, {"rule": "FRAME", "filter": files("semantic_tokens.rs"), "floor": 7},
-      {"rule": "LEN-UNITS", "filter": tag("lsp"), "floor": 1}, {"rule": "SEMTOK-PAIRING", "floor": 6},
+      {"rule": "LEN-UNITS", "filter": tag("lsp"), "floor": 1}, {"rule": "SEMTOK-PAIRING", "floor": 9},
       {"rule": "SCOPE-ORDER", "filter": both(feat("semantic_tokens"), nottag("typescope", "semantic")), "floor": 9}, {"rule": "FRAME", "filter": files("parser.rs", "utility.rs"), "floor": 3}])
 
 prop("C16", NEC + "Clauses: every token slice / node pair that drives the position classification is in one frame (FRAME "
